@@ -99,7 +99,7 @@ def rule_K(ck, lib, pfx):
     posc = pos[1]
     scan = posc[2][0]   # iter(slice)
     closure = posc[2][1]
-    okc = closure[0] == "closure" and bytecls.denote_closure(ps.closures.get(closure[1]), lib) == frozenset([10])
+    okc = bytecls.denote_term(closure, ps, lib) == frozenset([10])
     ck.judge(okc, pfx + "-K2", "process:terminator-predicate", "scan predicate denotes {10}", "scan predicate does not denote exactly the newline byte")
     # scan range
     sl = scan[2][0] if scan[0] == "call" and scan[1].endswith("::iter") else None
